@@ -1501,10 +1501,11 @@ def _fixStringValue(s, p):
             while j < 4:
                 c = s[i + j]
                 c = c.upper()
-                if not c.isdigit() and c not in 'ABCDEF':
+                # Note: str.isdigit() is also true for non-ASCII digits
+                if c not in '0123456789ABCDEF':
                     break
                 hexc <<= 4
-                if c.isdigit():
+                if c in '0123456789':
                     hexc |= ord(c) - ord('0')
                 else:
                     hexc |= ord(c) - ord('A') + 0XA
